@@ -65,7 +65,26 @@ func typeProbes[T signal.SignalTypes](name string) func(ch, length int) []Probe 
 		tight0 := signal.Alloc[T](signal.Allocator{Channels: ch, Length: length, Capacity: length + 1})
 		tight := signal.Alloc[T](signal.Allocator{Channels: ch, Length: length, Capacity: length + 1})
 		oneFrame := signal.Alloc[T](signal.Allocator{Channels: ch, Length: 1, Capacity: 1})
+		// two sources that each end in a partly filled frame and together fill a
+		// destination of 4 frames exactly
+		odd0 := signal.Alloc[T](signal.Allocator{Channels: ch, Length: 0, Capacity: 4})
+		odd := signal.Alloc[T](signal.Allocator{Channels: ch, Length: 0, Capacity: 4})
+		oddA := signal.Alloc[T](signal.Allocator{Channels: ch, Length: 1, Capacity: 2})
+		oddB := signal.Alloc[T](signal.Allocator{Channels: ch, Length: 2, Capacity: 3})
+		if ch > 1 {
+			oddA.AppendSample(T(1)) // ch+1 samples
+			for i := 0; i < ch-1; i++ {
+				oddB.AppendSample(T(2)) // 3*ch-1 samples
+			}
+		} else {
+			oddB.AppendSample(T(2)) // mono: 1 + 3 samples
+		}
 		ps := []Probe{
+			{Name: "two-Appends-of-sources-ending-in-a-partial-frame-that-fill-the-capacity-exactly[" + name + "]", Run: func() {
+				*odd = *odd0
+				odd.Append(oddA)
+				odd.Append(oddB)
+			}},
 			{Name: "Append-of-one-frame-into-the-last-free-frame[" + name + "]", Run: func() {
 				*tight = *tight0
 				tight.Append(oneFrame)
